@@ -41,6 +41,8 @@ class BinarySearchTree(Sampling):
 def create_binary_search_tree(probabilities):
     k = len(probabilities) - 1
     bst = np.concatenate((np.zeros(shape=k), probabilities))
+    if k == 0:
+        return bst[:1]  # a single state: the tree is its own (only) leaf
 
     ptr = 1
     stack = deque()
